@@ -224,6 +224,19 @@ PROPS = {
                            'C15_add_idempotent: an already tainted node gets no UPDATE; C15_no_restamp/C15_history: no write ever gives an already tainted node a different escalator taint. '
                            'Tie: taintops (direct calls, stale views, odd taint values, faults) and hist; full objects compared (plus a digest of every unmodelled field); monitor on observed GET/UPDATE pairs.',
                 level_note=LEVEL_NOTE),
+    'C20': dict(level='proof', module='EscProofs.P.C20',
+                streams=dict(quick=[('scenario', ['-dir', '@ROOT/corpus/C20']), ('hist', ['-n', 500, '-scans', 8, '-focus', 'faults'])],
+                             thorough=[('scenario', ['-dir', '@ROOT/corpus/C20']), ('hist', ['-n', 30000, '-scans', 10, '-focus', 'faults']), ('hist', ['-n', 60, '-scans', 6, '-focus', 'faults', '-slow'])],
+                             search=[('hist', ['-n', 2500, '-scans', 8, '-focus', 'faults'])]),
+                aspects=['outcome', 'reccount', 'journal', 'init:ok'], monitors=['C20'],
+                theorems=['Esc.P.C20_outcomes', 'Esc.P.C20_fatal_only_partial', 'Esc.P.C20_contained', 'Esc.P.C20_provider_id_guard', 'Esc.P.C20_ready_bounded',
+                          'Esc.P.C12_containment'],
+                technique='Lean 4 theorem (totality/termination of the model by construction, enumeration of RunOnce outcomes, error containment, index guard) + differential correspondence of the outcome class of every scan under odd object shapes and single/double injected faults + monitor; partial',
+                level_text='PARTIAL. Proved over the model: every function is total and every loop bounded (accepted definitions; C20_ready_bounded), a RunOnce ends in one of five enumerated ways (C20_outcomes), errors confined to a node or group do not stop the run '
+                           '(C20_contained), the only out-of-range index on the path is guarded (C20_provider_id_guard); C20_fatal_only_partial: without refresh failure / fleet strikes the only fatal outcome is not-in-group (the two other stop conditions are findings T5, T8). '
+                           'NOT provable in the model: that the Go code itself does not panic or hang — this is observed: the hist stream (odd shapes: nil allocatable, empty/short provider ids, absurd taint values, zero capacity; faults at every call index, single and double) '
+                           'compares the outcome class of every scan (recover() around the real RunOnce) and the next scan; real timers (1 s ticker, 5 s rebuild sleep) are runtime behaviour the model does not exhibit.',
+                level_note=LEVEL_NOTE),
 }
 
 # diffs that are relevant whatever the property (the scan's overall result)
